@@ -156,7 +156,27 @@ func init() {
 		"fmt.Print":    extNopTuple2,
 		"fmt.Sscanf":   extSscanf,
 
-		// --- log
+		"strings.Clone":              func(fr *frame, a []value) value { return a[0] },
+		"internal/stringslite.Clone": func(fr *frame, a []value) value { return a[0] },
+		"strconv.cloneString":        func(fr *frame, a []value) value { return a[0] },
+		"internal/bytealg.MakeNoZero": func(fr *frame, a []value) value {
+			n := int(fr.i.concInt(a[0]))
+			out := make([]value, n)
+			for k := range out {
+				out[k] = uint8(0)
+			}
+			return out
+		},
+
+		// --- log (formatting and I/O of log lines are not the subject of any property)
+		"(*log.Logger).Printf":  extNop,
+		"(*log.Logger).Println": extNop,
+		"(*log.Logger).Print":   extNop,
+		"(*log.Logger).Output":  func(fr *frame, a []value) value { return iface{} },
+		"log.New": func(fr *frame, a []value) value {
+			var cell value = fr.i.zero(mustDeref(fr.fn.Signature.Results().At(0).Type()))
+			return &cell
+		},
 		"log.Printf":  extNop,
 		"log.Println": extNop,
 		"log.Print":   extNop,
